@@ -77,7 +77,7 @@ def pause_value_rule(ctx):
 def run(ctx):
     # locals / parameters the rules below refer to by name (a rename makes the analysis 'broken', never a violation)
     ctx.anchor(ctx.fn1('Oomd::Engine::Ruleset::runOnceImpl'), 'run_actions')
-    ctx.anchor(ctx.fn1('Oomd::BaseKillPlugin::run'), 'ruleset', 'ret')
+    ctx.anchor(ctx.fn1('Oomd::BaseKillPlugin::run'))
     ctx.anchor(ctx.fn1('Oomd::Engine::Ruleset::pause_actions'), 'duration')
     P = ctx.prog
     ruleset_wiring(ctx, "C05", ['post_action_delay'])
@@ -126,8 +126,8 @@ def run(ctx):
     pw = field_writes(chain, "pause_actions_until_")
     fr = [i for i in field_writes(chain, "plugin_overrode_post_action_delay_")
           if chain.text(write_rhs(chain, i)) == "false"]
-    stop_blocks = [b["id"] for b in chain.cfg
-                   if b.get("label", {}).get("k") == "case" and b["label"].get("name") == "STOP"]
+    # the block entered when the action returned STOP: a case label, or the equal edge of an if-chain test
+    stop_blocks = [case_blocks(chain)["STOP"]] if "STOP" in case_blocks(chain) else []
     if not stop_blocks:
         ctx.broken("stop-case", "anchor", chain.loc(), "no 'case PluginRet::STOP' in run_action_chain")
     else:
@@ -203,7 +203,14 @@ def run(ctx):
     pa = krun.calls("Ruleset::pause_actions")
     ev = {i: [("set", "got_ruleset")] for i in gi}
     ev.update({i: [("set", "paused")] for i in pa})
-    split = lambda k: "postActionDelay_" in k or k == "ruleset"
+    # the local that holds the invoking ruleset, whatever it is called
+    rs_names = [v_["name"] for d_ in krun.all("decl") for v_ in krun.nodes[d_].get("vars", [])
+                if v_.get("init") is not None and v_.get("init", -1) >= 0 and krun.strip(v_["init"]) in [krun.strip(g_) for g_ in gi]]
+    if len(rs_names) != 1:
+        ctx.broken("invoking-ruleset-local", "anchor", krun.loc(), "BaseKillPlugin::run does not keep getInvokingRuleset() in one local: the split on its presence cannot be set up")
+        return
+    rsn = rs_names[0]
+    split = lambda k: "postActionDelay_" in k or k == rsn
     fk = Flow(P, krun, events=ev, cg=ctx.cg, split=split)
     stops = [r for r in returns(krun) if ret_const(krun, r) == "STOP"]
     ctx.count("kill_run_stop_returns", len(stops))
@@ -217,7 +224,7 @@ def run(ctx):
         for val, st in parts.items():
             d = dict(val)
             has_delay = any(k.startswith("C:") and "postActionDelay_" in k and v is True for k, v in d.items())
-            has_rs = d.get("C:ruleset") is True
+            has_rs = d.get("C:" + rsn) is True
             if has_delay and has_rs and "paused" not in st.must:
                 okp = False
             if not (has_delay and has_rs) and "paused" in st.may:
